@@ -696,4 +696,62 @@ def queriesParse (e : Codec ε) (elemBytes : Nat) (d : Codec δ) (q : Queries) (
     | .eof => .eof
     | .panic => .panic
 
+-- ------------------------------------------------------------------------------------------------
+-- `Commitments::parse`, `OodFrame::parse`
+
+/-- run a decoder over a whole byte block: unconsumed bytes are an error (`UnconsumedBytes`) -/
+def runAll (d : Dec α) (bs : Bytes) : Res α :=
+  match d bs with
+  | .ok (x, rest) => if rest.isEmpty then .ok x else .err
+  | .err => .err
+  | .eof => .eof
+  | .panic => .panic
+
+/-- `Commitments::parse(num_trace_segments, num_fri_layers)` -/
+def commitmentsParse (d : Codec δ) (bytes : Bytes) (nt nf : Nat) : Res (List δ × δ × List δ) :=
+  runAll (do
+    let t ← readMany d.dec nt
+    let c ← d.dec
+    let f ← readMany d.dec (nf + 1)
+    pure (t, c, f)) bytes
+
+/-- `chunks_exact(2)`: current and next row -/
+def deinterleave : List α → List α × List α
+  | a :: b :: t => (a :: (deinterleave t).1, b :: (deinterleave t).2)
+  | _ => ([], [])
+
+/-- `OodFrame::parse(main_trace_width, aux_trace_width, num_evaluations)`: current row, next row, Lagrange
+    kernel frame, constraint evaluations (bytes left over after the Lagrange frame are not looked at) -/
+def oodParse (e : Codec ε) (f : OodFrame) (main aux nev : Nat) :
+    Res (List ε × List ε × Option (List ε) × List ε) :=
+  if main = 0 ∨ nev = 0 then .panic
+  else
+    let lagDec : Dec (Option (List ε)) := do
+      let n ← readU8
+      if n > 0 then do
+        let l ← readMany e.dec n
+        pure (some l)
+      else pure none
+    match lagDec f.lagrange with
+    | .ok (lag, _) =>
+      let k := if lag.isSome then 1 else 0
+      if aux < k then .err
+      else
+        let trDec : Dec (List ε) := do
+          let fs ← readU8
+          if fs ≠ 2 then Dec.fail else readMany e.dec ((main + (aux - k)) * fs)
+        match runAll trDec f.traceStates with
+        | .ok tr =>
+          match runAll (readMany e.dec nev) f.evaluations with
+          | .ok ev => .ok ((deinterleave tr).1, (deinterleave tr).2, lag, ev)
+          | .err => .err
+          | .eof => .eof
+          | .panic => .panic
+        | .err => .err
+        | .eof => .eof
+        | .panic => .panic
+    | .err => .err
+    | .eof => .eof
+    | .panic => .panic
+
 end Model.Serde
